@@ -212,3 +212,31 @@ def run_shim_history(repo, relpath, do_grad):
         cur["log"]["returned"] = [snap(x) if not isinstance(x, (list, tuple)) else ",".join(snap(y) for y in x) for x in flat]
         calls.append(cur["log"])
     return calls
+
+
+def objective_roles(repo, rel):
+    """{parameter of the jitted objective: role} with role in pars / data / fixed_values / fixed_idx / variable_idx / do_stitch /
+    objective / pdf -- read off the jax shim's own call site (what it passes where), so that the private function's parameter
+    names and order are whatever its definition and its call sites agree on today."""
+    w = repo.func(rel, "wrap_objective")
+    fo = repo.func(rel, "_final_objective")
+    formals = [a.arg for a in fo.node.args.posonlyargs + fo.node.args.args]
+    roles = {}
+    for c in A.calls_in(w.node):
+        if not (isinstance(c.func, ast.Name) and c.func.id.startswith("_jitted_objective")):
+            continue
+        inner = next((fn_ for fn_ in ast.walk(w.node) if isinstance(fn_, (ast.FunctionDef, ast.Lambda)) and fn_ is not w.node and any(x is c for x in ast.walk(fn_))), None)
+        own = [a.arg for a in inner.args.args] if inner is not None else []
+        for formal, actual in list(zip(formals, c.args)) + [(k.arg, k.value) for k in c.keywords if k.arg]:
+            txt = A.unparse(actual)
+            if isinstance(actual, ast.Name) and actual.id in own:
+                role = "pars"
+            elif isinstance(actual, ast.Name) and actual.id in ("data", "objective", "pdf"):
+                role = actual.id
+            else:
+                role = next((r_ for r_ in ("fixed_values", "fixed_idx", "variable_idx", "do_stitch") if r_ in txt), None)
+            if role is not None:
+                if roles.get(formal, role) != role:
+                    return {}
+                roles[formal] = role
+    return roles if len(roles) == len(formals) and len(set(roles.values())) == len(formals) else {}
